@@ -93,7 +93,7 @@ impl<'de, 'a, 't> de::Deserializer<'de> for &'a mut Play<'t> {
             Tok::U32(x) => { self.pos += 1; v.visit_u32(x) } Tok::U64(x) => { self.pos += 1; v.visit_u64(x) }
             Tok::F32(x) => { self.pos += 1; v.visit_f32(f32::from_bits(x)) } Tok::F64(x) => { self.pos += 1; v.visit_f64(f64::from_bits(x)) }
             Tok::Struct(_, _) => { self.pos += 1; v.visit_map(Acc { p: self }) }
-            Tok::Tuple(_) => { self.pos += 1; v.visit_seq(Acc { p: self }) }
+            Tok::Tuple(_) => { self.pos += 1; let r = v.visit_seq(Acc { p: &mut *self }); if r.is_ok() && self.peek() == Tok::TupleEnd { self.pos += 1; } r }
             Tok::Newtype(_) => { self.pos += 1; v.visit_newtype_struct(self) }
             Tok::Unit => { self.pos += 1; v.visit_unit() }
             _ => Err(TE),
@@ -151,65 +151,87 @@ struct AsUint { #[serde(with = "palette::serde::as_uint")] c: palette::rgb::Pack
 #[derive(serde::Deserialize)]
 struct OptAlpha { #[serde(deserialize_with = "palette::serde::deserialize_with_optional_alpha")] c: Srgba<u8> }
 
-harnesses! { REG, "C20", "c20";
-    { id: "rgb_rgba.struct_shape_and_round_trip", tier: quick, label: "complete",
-      func: "derive(Serialize, Deserialize) for Rgb [rgb/rgb.rs], impl Serialize/Deserialize for Alpha -> serde::{AlphaSerializer, AlphaDeserializer} [alpha/alpha.rs, serde/alpha_serializer.rs, serde/alpha_deserializer.rs]",
-      desc: "R1-R3 for all non-NaN f32 components: Rgb serializes as struct{red,green,blue} with no token for the standard; Rgba as the SAME struct with `alpha` appended at the same level; both deserialize back bit-exactly" }
-    fn rgba_struct(g) {
-        let (r, gr, b, a) = (nn32(g), nn32(g), nn32(g), nn32(g));
-        cov!(g, r != gr);
-        let c = Srgb::new(r, gr, b);
-        let t = ser(&c);
-        ob!("R2.rgb_serializes", t.is_some());
-        if let Some(t) = t {
-            ob!("R3.rgb_shape_struct_of_three_fields_no_metadata", t.n == 8 && matches!(t.t[0], Tok::Struct(_, 3))
-                && t.t[1] == Tok::Field("red") && t.t[2] == Tok::F32(r.to_bits()) && t.t[3] == Tok::Field("green") && t.t[4] == Tok::F32(gr.to_bits())
-                && t.t[5] == Tok::Field("blue") && t.t[6] == Tok::F32(b.to_bits()) && t.t[7] == Tok::StructEnd);
-            let back: Option<Srgb<f32>> = de(&t.t[..t.n]);
-            ob!("R1.rgb_round_trip", match back { Some(x) => x.red.to_bits() == r.to_bits() && x.green.to_bits() == gr.to_bits() && x.blue.to_bits() == b.to_bits(), None => false });
-        }
-        let ca = Srgba::new(r, gr, b, a);
-        let t = ser(&ca);
-        ob!("R2.rgba_serializes", t.is_some());
-        if let Some(t) = t {
-            ob!("R2.alpha_appended_at_same_level", t.n == 10 && matches!(t.t[0], Tok::Struct(_, 4)) && t.t[1] == Tok::Field("red") && t.t[5] == Tok::Field("blue")
-                && t.t[7] == Tok::Field("alpha") && t.t[8] == Tok::F32(a.to_bits()) && t.t[9] == Tok::StructEnd);
-            let back: Option<Srgba<f32>> = de(&t.t[..t.n]);
-            ob!("R1.rgba_round_trip", match back { Some(x) => x.red.to_bits() == r.to_bits() && x.blue.to_bits() == b.to_bits() && x.alpha.to_bits() == a.to_bits(), None => false });
-        }
-    }
+fn f32eq(a: f32, b: f32) -> bool { a.to_bits() == b.to_bits() }
 
-    { id: "hue_types.bare_number_and_round_trip", tier: quick, label: "complete",
-      func: "derive(Serialize, Deserialize) for Hsv, hue newtypes [hsv.rs, hues.rs], Alpha wrapper, Lab (white point metadata)",
-      desc: "R1-R3: a hue serializes as a bare number (transparent newtype), Hsva appends alpha at the same level, Lab emits no white-point token; all round trip bit-exactly" }
-    fn hsv_lab(g) {
-        let (h, s, v, a) = (nn32(g), nn32(g), nn32(g), nn32(g));
-        cov!(g, h != s);
-        let c: Hsv<palette::encoding::Srgb, f32> = Hsv::new(h, s, v);
-        if let Some(t) = ser(&c) {
-            ob!("R3.hue_is_bare_number", t.n == 8 && t.t[1] == Tok::Field("hue") && t.t[2] == Tok::F32(h.to_bits()) && t.t[3] == Tok::Field("saturation"));
-            let back: Option<Hsv<palette::encoding::Srgb, f32>> = de(&t.t[..t.n]);
-            ob!("R1.hsv_round_trip", match back { Some(x) => x.hue.into_raw_degrees().to_bits() == h.to_bits() && x.saturation.to_bits() == s.to_bits() && x.value.to_bits() == v.to_bits(), None => false });
-        } else { ob!("R2.hsv_serializes", false); }
-        let ca: Hsva<palette::encoding::Srgb, f32> = Hsva::new(h, s, v, a);
-        if let Some(t) = ser(&ca) {
-            ob!("R2.hsva_alpha_same_level", t.n == 10 && t.t[7] == Tok::Field("alpha") && t.t[8] == Tok::F32(a.to_bits()));
-            let back: Option<Hsva<palette::encoding::Srgb, f32>> = de(&t.t[..t.n]);
-            ob!("R1.hsva_round_trip", match back { Some(x) => x.hue.into_raw_degrees().to_bits() == h.to_bits() && x.alpha.to_bits() == a.to_bits(), None => false });
-        } else { ob!("R2.hsva_serializes", false); }
-        let l: Laba<palette::white_point::D65, f32> = Laba::new(h, s, v, a);
-        if let Some(t) = ser(&l) {
-            ob!("R3.lab_no_white_point_token", t.n == 10 && t.t[1] == Tok::Field("l") && t.t[3] == Tok::Field("a") && t.t[5] == Tok::Field("b") && t.t[7] == Tok::Field("alpha"));
-            let back: Option<Laba<palette::white_point::D65, f32>> = de(&t.t[..t.n]);
-            ob!("R1.laba_round_trip", match back { Some(x) => x.l.to_bits() == h.to_bits() && x.b.to_bits() == v.to_bits() && x.alpha.to_bits() == a.to_bits(), None => false });
-        } else { ob!("R2.laba_serializes", false); }
+harnesses! { REG, "C20", "c20";
+    { id: "shape.serialize_all", tier: quick, label: "complete",
+      func: "derive(Serialize) for Rgb/Hsv/Lab, hue newtypes, impl Serialize for Alpha -> serde::AlphaSerializer [rgb/rgb.rs, hsv.rs, lab.rs, hues.rs, alpha/alpha.rs, serde/alpha_serializer.rs]",
+      desc: "R2+R3 for all non-NaN f32 components: Rgb is struct{red,green,blue}; Alpha<C> is C's own struct with `alpha` appended at the SAME level (field count + 1, no nesting); a hue is a newtype around a bare number; no token for the RGB standard / white point metadata" }
+    #[kani::unwind(12)]
+    fn shapes(g) {
+        let (x, y, z, a) = (nn32(g), nn32(g), nn32(g), nn32(g));
+        cov!(g, x != y);
+        match ser(&Srgb::new(x, y, z)) {
+            Some(t) => ob!("R3.rgb_shape_struct_of_three_fields_no_metadata", t.n == 8 && matches!(t.t[0], Tok::Struct(_, 3))
+                && t.t[1] == Tok::Field("red") && t.t[2] == Tok::F32(x.to_bits()) && t.t[3] == Tok::Field("green") && t.t[4] == Tok::F32(y.to_bits())
+                && t.t[5] == Tok::Field("blue") && t.t[6] == Tok::F32(z.to_bits()) && t.t[7] == Tok::StructEnd),
+            None => ob!("R2.rgb_serializes", false),
+        }
+        match ser(&Srgba::new(x, y, z, a)) {
+            Some(t) => ob!("R2.rgba_alpha_appended_at_same_level", t.n == 10 && matches!(t.t[0], Tok::Struct(_, 4)) && t.t[1] == Tok::Field("red") && t.t[2] == Tok::F32(x.to_bits())
+                && t.t[3] == Tok::Field("green") && t.t[5] == Tok::Field("blue") && t.t[6] == Tok::F32(z.to_bits()) && t.t[7] == Tok::Field("alpha") && t.t[8] == Tok::F32(a.to_bits()) && t.t[9] == Tok::StructEnd),
+            None => ob!("R2.rgba_serializes", false),
+        }
+        match ser(&Hsv::<palette::encoding::Srgb, f32>::new(x, y, z)) {
+            Some(t) => ob!("R3.hue_is_a_newtype_around_a_bare_number", t.n == 9 && matches!(t.t[0], Tok::Struct(_, 3)) && t.t[1] == Tok::Field("hue") && matches!(t.t[2], Tok::Newtype(_))
+                && t.t[3] == Tok::F32(x.to_bits()) && t.t[4] == Tok::Field("saturation") && t.t[6] == Tok::Field("value") && t.t[8] == Tok::StructEnd),
+            None => ob!("R2.hsv_serializes", false),
+        }
+        match ser(&Hsva::<palette::encoding::Srgb, f32>::new(x, y, z, a)) {
+            Some(t) => ob!("R2.hsva_alpha_same_level", t.n == 11 && matches!(t.t[0], Tok::Struct(_, 4)) && t.t[8] == Tok::Field("alpha") && t.t[9] == Tok::F32(a.to_bits()) && t.t[10] == Tok::StructEnd),
+            None => ob!("R2.hsva_serializes", false),
+        }
+        match ser(&Laba::<palette::white_point::D65, f32>::new(x, y, z, a)) {
+            Some(t) => ob!("R3.lab_no_white_point_token", t.n == 10 && matches!(t.t[0], Tok::Struct(_, 4)) && t.t[1] == Tok::Field("l") && t.t[3] == Tok::Field("a") && t.t[5] == Tok::Field("b") && t.t[7] == Tok::Field("alpha") && t.t[9] == Tok::StructEnd),
+            None => ob!("R2.laba_serializes", false),
+        }
         let _ = Lab::<palette::white_point::D65, f32>::new(0.0, 0.0, 0.0);
     }
 
-    { id: "sequence_shape.round_trip_and_optional_alpha", tier: quick, label: "complete",
-      func: "AlphaDeserializer (visit_seq / visit_map paths), serde::deserialize_with_optional_alpha [serde.rs, serde/alpha_deserializer.rs]",
-      desc: "R1+R4 for all u8 components: colours read from tuple/seq shaped data (colour fields then alpha last); a transparent type read from data WITHOUT alpha (struct and seq shape) gets max_intensity" }
-    fn seq_and_optional(g) {
+    { id: "round_trip.plain_structs", tier: quick, label: "complete",
+      func: "derive(Deserialize) for Rgb, Hsv (hue newtype) composed with derive(Serialize)",
+      desc: "R1 for all non-NaN f32 components: deserialize(serialize(c)) == c bit for bit for Rgb and Hsv (struct shape)" }
+    #[kani::unwind(12)]
+    fn rt_plain(g) {
+        let (x, y, z) = (nn32(g), nn32(g), nn32(g));
+        cov!(g, x != y);
+        let back: Option<Srgb<f32>> = ser(&Srgb::new(x, y, z)).and_then(|t| de(&t.t[..t.n]));
+        ob!("R1.rgb_round_trip", match back { Some(c) => f32eq(c.red, x) && f32eq(c.green, y) && f32eq(c.blue, z), None => false });
+        let back: Option<Hsv<palette::encoding::Srgb, f32>> = ser(&Hsv::<palette::encoding::Srgb, f32>::new(x, y, z)).and_then(|t| de(&t.t[..t.n]));
+        ob!("R1.hsv_round_trip", match back { Some(c) => f32eq(c.hue.into_raw_degrees(), x) && f32eq(c.saturation, y) && f32eq(c.value, z), None => false });
+    }
+
+    { id: "round_trip.rgba_struct", tier: quick, label: "complete",
+      func: "impl Deserialize for Alpha -> serde::AlphaDeserializer (map path: MapWrapper, AlphaFieldVisitor) composed with AlphaSerializer",
+      desc: "R1 for all u8 components: deserializing the token stream that shape.serialize_all proves the serializer emits returns the colour (alpha intercepted at the same level); with the shape contract this is the round trip" }
+    #[kani::unwind(12)]
+    fn rt_rgba(g) {
+        let (r, gr, b, a) = (g.u8(), g.u8(), g.u8(), g.u8());
+        cov!(g, r != a);
+        // the token stream is exactly the one `shape.serialize_all` proves the serializer emits
+        let toks = [Tok::Struct("Rgb", 4), Tok::Field("red"), Tok::U8(r), Tok::Field("green"), Tok::U8(gr), Tok::Field("blue"), Tok::U8(b), Tok::Field("alpha"), Tok::U8(a), Tok::StructEnd];
+        let back: Option<Srgba<u8>> = de(&toks);
+        ob!("R1.rgba_round_trip", match back { Some(c) => c.red == r && c.green == gr && c.blue == b && c.alpha == a, None => false });
+    }
+
+    { id: "round_trip.hsva_struct", tier: quick, label: "complete",
+      func: "impl Deserialize for Alpha<Hsv> -> serde::AlphaDeserializer (hue newtype inside) composed with AlphaSerializer",
+      desc: "R1 for all non-NaN f32 components: deserializing the emitted token stream (hue newtype inside) returns the colour bit for bit" }
+    #[kani::unwind(12)]
+    fn rt_hsva(g) {
+        let (h, s, v, a) = (nn32(g), nn32(g), nn32(g), nn32(g));
+        cov!(g, h != a);
+        let toks = [Tok::Struct("Hsv", 4), Tok::Field("hue"), Tok::Newtype("RgbHue"), Tok::F32(h.to_bits()), Tok::Field("saturation"), Tok::F32(s.to_bits()),
+                    Tok::Field("value"), Tok::F32(v.to_bits()), Tok::Field("alpha"), Tok::F32(a.to_bits()), Tok::StructEnd];
+        let back: Option<Hsva<palette::encoding::Srgb, f32>> = de(&toks);
+        ob!("R1.hsva_round_trip", match back { Some(c) => f32eq(c.hue.into_raw_degrees(), h) && f32eq(c.saturation, s) && f32eq(c.value, v) && f32eq(c.alpha, a), None => false });
+    }
+
+    { id: "sequence_shape.rgba_rgb", tier: quick, label: "complete",
+      func: "AlphaDeserializer (seq path: AlphaSeqVisitor), derive(Deserialize) visit_seq",
+      desc: "R1 for all u8 components: colours read from tuple/seq shaped data, colour fields in order then alpha last" }
+    #[kani::unwind(12)]
+    fn seq_shape(g) {
         let (r, gr, b, a) = (g.u8(), g.u8(), g.u8(), g.u8());
         cov!(g, r != gr && a != 255);
         let seq4 = [Tok::Tuple(4), Tok::U8(r), Tok::U8(gr), Tok::U8(b), Tok::U8(a), Tok::TupleEnd];
@@ -218,18 +240,36 @@ harnesses! { REG, "C20", "c20";
         let seq3 = [Tok::Tuple(3), Tok::U8(r), Tok::U8(gr), Tok::U8(b), Tok::TupleEnd];
         let c: Option<Srgb<u8>> = de(&seq3);
         ob!("R1.rgb_from_sequence", match c { Some(x) => x.red == r && x.green == gr && x.blue == b, None => false });
-        // optional alpha: struct shape without the alpha field
+    }
+
+    { id: "optional_alpha.missing", tier: quick, label: "complete",
+      func: "serde::deserialize_with_optional_alpha [serde.rs]",
+      desc: "R4 for all u8 components: a transparent type read from struct-shaped data WITHOUT an alpha field gets max_intensity (255)" }
+    #[kani::unwind(12)]
+    fn opt_missing(g) {
+        let (r, gr, b) = (g.u8(), g.u8(), g.u8());
+        cov!(g, r != gr);
         let no_alpha = [Tok::Struct("Wrap", 1), Tok::Field("c"), Tok::Struct("Rgb", 3), Tok::Field("red"), Tok::U8(r), Tok::Field("green"), Tok::U8(gr), Tok::Field("blue"), Tok::U8(b), Tok::StructEnd, Tok::StructEnd];
         let o: Option<OptAlpha> = de(&no_alpha);
-        ob!("R4.missing_alpha_is_full_opacity", match o { Some(x) => x.c.red == r && x.c.blue == b && x.c.alpha == 255, None => false });
+        ob!("R4.missing_alpha_is_full_opacity", match o { Some(x) => x.c.red == r && x.c.green == gr && x.c.blue == b && x.c.alpha == 255, None => false });
+    }
+
+    { id: "optional_alpha.present", tier: quick, label: "complete",
+      func: "serde::deserialize_with_optional_alpha [serde.rs]",
+      desc: "R4 for all u8 components: when the alpha field is present it is used" }
+    #[kani::unwind(12)]
+    fn opt_present(g) {
+        let (r, gr, b, a) = (g.u8(), g.u8(), g.u8(), g.u8());
+        cov!(g, a != 255);
         let with_alpha = [Tok::Struct("Wrap", 1), Tok::Field("c"), Tok::Struct("Rgb", 4), Tok::Field("red"), Tok::U8(r), Tok::Field("green"), Tok::U8(gr), Tok::Field("blue"), Tok::U8(b), Tok::Field("alpha"), Tok::U8(a), Tok::StructEnd, Tok::StructEnd];
         let o: Option<OptAlpha> = de(&with_alpha);
-        ob!("R4.present_alpha_is_used", match o { Some(x) => x.c.green == gr && x.c.alpha == a, None => false });
+        ob!("R4.present_alpha_is_used", match o { Some(x) => x.c.red == r && x.c.green == gr && x.c.alpha == a, None => false });
     }
 
     { id: "helpers.as_array_as_uint", tier: quick, label: "complete",
       func: "serde::{serialize_as_array, deserialize_as_array, serialize_as_uint, deserialize_as_uint} [serde.rs]",
       desc: "R5 for all values: as_array emits exactly the tokens of cast::into_array (r,g,b tuple) and reads them back; as_uint emits the packed integer and reads it back" }
+    #[kani::unwind(12)]
     fn helpers(g) {
         let (r, gr, b) = (g.u8(), g.u8(), g.u8());
         let p = g.u32();
@@ -250,3 +290,20 @@ harnesses! { REG, "C20", "c20";
 }
 
 pub fn registry() -> Vec<&'static crate::macros::Entry> { REG.iter().collect() }
+
+/// native debugging aid: print the token streams of sample values
+pub fn debug_dump() {
+    let show = |name: &str, r: Option<Rec>| { match r { Some(r) => println!("{} ({}): {:?}", name, r.n, &r.t[..r.n]), None => println!("{}: ERROR", name) } };
+    show("hsv", ser(&Hsv::<palette::encoding::Srgb, f32>::new(1.0, 2.0, 3.0)));
+    show("hsva", ser(&Hsva::<palette::encoding::Srgb, f32>::new(1.0, 2.0, 3.0, 4.0)));
+    show("rgba", ser(&Srgba::<f32>::new(1.0, 2.0, 3.0, 4.0)));
+    show("as_array", ser(&AsArray { c: Srgb::new(1, 2, 3) }));
+    show("as_uint", ser(&AsUint { c: 7u32.into() }));
+    let t = ser(&AsArray { c: Srgb::new(1, 2, 3) }).unwrap();
+    let back: Option<AsArray> = de(&t.t[..t.n]);
+    println!("as_array back: {:?}", back.map(|x| (x.c.red, x.c.green, x.c.blue)));
+    let seq4 = [Tok::Tuple(4), Tok::U8(1), Tok::U8(2), Tok::U8(3), Tok::U8(4), Tok::TupleEnd];
+    let c: Option<Srgba<u8>> = de(&seq4);
+    println!("rgba from seq: {:?}", c.map(|x| (x.red, x.green, x.blue, x.alpha)));
+}
+
